@@ -170,6 +170,9 @@ func (b *wrapBatch) DelCurrent(it storage.Iter) {
 func (b *wrapBatch) inner() storage.BatchWrite {
 	ib := b.w.KvStorage.BeginBatchWrite()
 	for _, op := range b.ops {
+		if b.w.NoTTL {
+			op.TTL = 0 // an engine without native TTL ignores the argument
+		}
 		switch op.Kind {
 		case "pine":
 			ib.PutIfNotExist(op.Key, op.Val, op.TTL)
